@@ -20,8 +20,8 @@ import (
 	"github.com/sheerbytes/sheerbytes/internal/ice"
 	"github.com/sheerbytes/sheerbytes/internal/transferquic"
 	quic "github.com/sheerbytes/sheerbytes/internal/verif/venv/vquic"
-	vrt "github.com/sheerbytes/sheerbytes/internal/verif/vrt"
 	"github.com/sheerbytes/sheerbytes/internal/verif/vlib"
+	vrt "github.com/sheerbytes/sheerbytes/internal/verif/vrt"
 )
 
 var res *vlib.Result
@@ -196,7 +196,12 @@ func main() {
 		}
 		fmt.Fprintf(os.Stderr, "replay c09 %s: outcome=%s conn=%v err=%v won=%d sAuth=%v rAuth=%v\n", c, x.Outcome, last.conn != nil, last.dialErr, last.wonUpdates, last.sAuth, last.rAuth)
 		for i, d := range quic.Net.Dials {
-			fmt.Fprintf(os.Stderr, "  dial %d to %s: client=%v (err %v) server=%v returned=%v\n", i, d.Addr, d.Client != nil, func() error { if d.Client != nil { return d.Client.Err() }; return nil }(), d.Server != nil, d.Client != nil && d.Client == last.conn)
+			fmt.Fprintf(os.Stderr, "  dial %d to %s: client=%v (err %v) server=%v returned=%v\n", i, d.Addr, d.Client != nil, func() error {
+				if d.Client != nil {
+					return d.Client.Err()
+				}
+				return nil
+			}(), d.Server != nil, d.Client != nil && d.Client == last.conn)
 		}
 		check(c, x)
 		res.Finish()
